@@ -309,7 +309,8 @@ def replay_file(path: str) -> int:
     case = doc['case'] if 'case' in doc else doc
     verd = fx.Verdicts(PROP)
     for x64 in (False, True):
-        res = fx.replay('c02', 'execute', [case], x64=x64, procs=1)
+        fn = 'execute_session' if 'hist' in case else 'execute'
+        res = fx.replay('c02', fn, [case], x64=x64, procs=1)
         judge([case], res, verd, 'x64' if x64 else 'x32')
         print(json.dumps(res[0], indent=1))
     return verd.finish()
